@@ -173,9 +173,10 @@ fn any_surjproof<const L: usize>() -> Option<Box<SurjectionProof>> {
     }
 }
 
-//@ harness: txinwitness_empty class=F tier=quick
+//@ harness: txinwitness_empty class=F tier=thorough bound="unwind 3"
 //@ clause: the empty TxInWitness encodes to exactly 00 00 00 00 (length 4 reported), is_empty(); decoding 00 00 00 00 yields an empty witness consuming 4 bytes; the 3-byte truncation is an error
-ffi_proof! {
+#[kani::proof]
+#[kani::unwind(3)] // `for _ in 0..len` in Vec<T>::consensus_decode: the decoded length is not constant-folded by CBMC
 fn txinwitness_empty() {
     let w = TxInWitness::empty();
     assert!(w.is_empty());
@@ -183,7 +184,12 @@ fn txinwitness_empty() {
     assert!(n == 4 && s.len == 4 && s.buf[0] == 0 && s.buf[1] == 0 && s.buf[2] == 0 && s.buf[3] == 0);
     let buf = [0u8; 5];
     match encode::deserialize_partial::<TxInWitness>(&buf[..]) {
-        Ok((u, k)) => { assert!(k == 4 && u.is_empty() && u == w); kani::cover!(true); forget(u); }
+        Ok((u, k)) => {
+            assert!(k == 4 && u.is_empty());
+            assert!(u.amount_rangeproof.is_none() && u.inflation_keys_rangeproof.is_none() && u.script_witness.len() == 0 && u.pegin_witness.len() == 0);
+            kani::cover!(true);
+            forget(u);
+        }
         Err(e) => { forget(e); assert!(false); }
     }
     match encode::deserialize_partial::<TxInWitness>(&buf[..3]) {
@@ -192,11 +198,10 @@ fn txinwitness_empty() {
     }
     forget(w);
 }
-}
 
 /// TxInWitness at a concrete shape: A = amount proof length, B = inflation-keys proof length,
 /// script witness items of lengths S0,S1 (count SC <= 2), pegin witness items of lengths P0 (count PC <= 1)
-macro_rules! txinwitness_harness {
+macro_rules! txinwitness_enc {
     ($name:ident, $a:expr, $b:expr, $sc:expr, $s0:expr, $s1:expr, $pc:expr, $p0:expr) => {
         ffi_proof! {
         fn $name() {
@@ -206,7 +211,6 @@ macro_rules! txinwitness_harness {
             const K: usize = 1 + A + 1 + B + 1 + (if SC > 0 { 1 + S0 } else { 0 }) + (if SC > 1 { 1 + S1 } else { 0 })
                 + 1 + (if PC > 0 { 1 + P0 } else { 0 });
             const N: usize = K + 1;
-            // ---- encode side: in-memory value -> oracle bytes
             let mut sw: Vec<Vec<u8>> = Vec::with_capacity(SC);
             if SC > 0 { sw.push(spec::any_vec::<S0>()); }
             if SC > 1 { sw.push(spec::any_vec::<S1>()); }
@@ -230,53 +234,74 @@ macro_rules! txinwitness_harness {
             let (n, s) = enc::<N, _>(&w);
             assert!(n == s.len && n == K);
             sp.assert_eq(&s.buf, n);
-            // ---- decode side: symbolic bytes with the concrete length fields of this shape, symbolic truncation
+            kani::cover!(true);
+            forget(w);
+        }
+        }
+    };
+}
+macro_rules! txinwitness_dec {
+    ($name:ident, $a:expr, $b:expr, $sc:expr, $s0:expr, $s1:expr, $pc:expr, $p0:expr) => {
+        #[kani::proof]
+        #[kani::unwind(3)] // element loops of Vec<Vec<u8>>::consensus_decode: decoded lengths are not constant-folded by CBMC
+        #[kani::stub(zffi::secp256k1_rangeproof_info, ffi_models::rangeproof_info)]
+        fn $name() {
+            ffi_models::init();
+            const A: usize = $a; const B: usize = $b; const SC: usize = $sc; const S0: usize = $s0; const S1: usize = $s1;
+            const PC: usize = $pc; const P0: usize = $p0;
+            const OS: usize = 1 + A + 1 + B;                       // offset of the script-witness count
+            const OP: usize = OS + 1 + (if SC > 0 { 1 + S0 } else { 0 }) + (if SC > 1 { 1 + S1 } else { 0 });
+            const K: usize = OP + 1 + (if PC > 0 { 1 + P0 } else { 0 });
+            const N: usize = K + 1;
             let mut buf: [u8; N] = kani::any();
-            let mut at = 0;
-            buf[at] = A as u8; at += 1 + A;
-            buf[at] = B as u8; at += 1 + B;
-            buf[at] = SC as u8; at += 1;
-            if SC > 0 { buf[at] = S0 as u8; at += 1 + S0; }
-            if SC > 1 { buf[at] = S1 as u8; at += 1 + S1; }
-            buf[at] = PC as u8; at += 1;
-            if PC > 0 { buf[at] = P0 as u8; at += 1 + P0; }
-            assert!(at == K);
+            buf[0] = A as u8;
+            buf[1 + A] = B as u8;
+            buf[OS] = SC as u8;
+            if SC > 0 { buf[OS + 1] = S0 as u8; }
+            if SC > 1 { buf[OS + 2 + S0] = S1 as u8; }
+            buf[OP] = PC as u8;
+            if PC > 0 { buf[OP + 1] = P0 as u8; }
+            let bad = (A > 0 && !ffi_models::rangeproof_acc(&buf[1..1 + A]))
+                || (B > 0 && !ffi_models::rangeproof_acc(&buf[2 + A..2 + A + B]));
+            kani::cover!(!bad);
             match encode::deserialize_partial::<TxInWitness>(&buf[..]) {
                 Ok((u, k)) => {
-                    assert!(k == K);
+                    assert!(k == K && !bad);
+                    // absent proof <=> empty vector
                     assert!(u.amount_rangeproof.is_none() == (A == 0));
                     assert!(u.inflation_keys_rangeproof.is_none() == (B == 0));
+                    if let Some(ref p) = u.amount_rangeproof { assert!(p.len() == A); }
+                    if let Some(ref p) = u.inflation_keys_rangeproof { assert!(p.len() == B); }
                     assert!(u.script_witness.len() == SC && u.pegin_witness.len() == PC);
-                    let (m, t) = enc::<N, _>(&u);
-                    assert!(m == k && t.len == k);
-                    assert_prefix_eq(&t.buf, &buf, k);
-                    kani::cover!(true);
+                    if SC > 0 { assert!(u.script_witness[0].len() == S0); if S0 > 0 { assert!(u.script_witness[0][0] == buf[OS + 2] && u.script_witness[0][S0 - 1] == buf[OS + 1 + S0]); } }
+                    if SC > 1 { assert!(u.script_witness[1].len() == S1); if S1 > 0 { assert!(u.script_witness[1][0] == buf[OS + 3 + S0] && u.script_witness[1][S1 - 1] == buf[OS + 2 + S0 + S1]); } }
+                    if PC > 0 { assert!(u.pegin_witness[0].len() == P0); if P0 > 0 { assert!(u.pegin_witness[0][0] == buf[OP + 2] && u.pegin_witness[0][P0 - 1] == buf[OP + 1 + P0]); } }
+                    assert!(!u.is_empty());
                     forget(u);
                 }
-                Err(e) => {
-                    forget(e);
-                    let bad = (A > 0 && !ffi_models::rangeproof_acc(&buf[1..1 + A]))
-                        || (B > 0 && !ffi_models::rangeproof_acc(&buf[2 + A..2 + A + B]));
-                    assert!(bad);
-                }
+                Err(e) => { forget(e); assert!(bad); }
             }
             // one-byte truncation is rejected
             match encode::deserialize_partial::<TxInWitness>(&buf[..K - 1]) {
                 Ok((u, _)) => { forget(u); assert!(false); }
                 Err(e) => forget(e),
             }
-            forget(w);
-        }
         }
     };
 }
 
-//@ harness: txinwitness_a class=B tier=thorough bound="amount proof 2 bytes, no keys proof, script witness [2 bytes], pegin witness []" timeout=900
-//@ clause: TxInWitness encode == wire-format oracle (four length-prefixed fields in order), reported length == bytes written, is_empty() iff all four empty; decode of every byte string of this shape: accepted iff the proofs parse (one-byte truncation rejected), absent proof <=> empty vector, re-encoding reproduces the bytes
-txinwitness_harness!(txinwitness_a, 2, 0, 1, 2, 0, 0, 0);
-//@ harness: txinwitness_b class=B tier=thorough bound="no amount proof, keys proof 1 byte, script witness [0 bytes, 1 byte], pegin witness [1 byte]" timeout=900
+//@ harness: txinwitness_enc_a class=B tier=thorough bound="amount proof 2 bytes, no keys proof, script witness [2 bytes], pegin witness []" timeout=900
+//@ clause: TxInWitness encode == wire-format oracle (four length-prefixed fields in order), reported length == bytes written, is_empty() iff all four empty
+txinwitness_enc!(txinwitness_enc_a, 2, 0, 1, 2, 0, 0, 0);
+//@ harness: txinwitness_enc_b class=B tier=thorough bound="no amount proof, keys proof 1 byte, script witness [0 bytes, 1 byte], pegin witness [1 byte]" timeout=900
 //@ clause: same, other shape (covers an empty stack item, two items, the keys proof and the pegin witness)
-txinwitness_harness!(txinwitness_b, 0, 1, 2, 0, 1, 1, 1);
+txinwitness_enc!(txinwitness_enc_b, 0, 1, 2, 0, 1, 1, 1);
+//@ harness: txinwitness_dec_a class=B tier=thorough bound="amount proof 2 bytes, no keys proof, script witness [2 bytes], pegin witness []; unwind 3" timeout=1800
+//@ clause: TxInWitness decode of every byte string of this shape: accepted iff the proofs parse; consumed == total length; absent proof <=> empty vector; every decoded length and the first/last byte of every item equal the input bytes; one-byte truncation rejected (together with txinwitness_enc_* this gives decode-then-encode == identity)
+txinwitness_dec!(txinwitness_dec_a, 2, 0, 1, 2, 0, 0, 0);
+//@ harness: txinwitness_dec_b class=B tier=thorough bound="no amount proof, keys proof 1 byte, script witness [0 bytes, 1 byte], pegin witness [1 byte]; unwind 3" timeout=1800
+//@ clause: same, other shape
+txinwitness_dec!(txinwitness_dec_b, 0, 1, 2, 0, 1, 1, 1);
 
 // ---------------------------------------------------------------------------------------------------------------
 // TxOutWitness
@@ -339,41 +364,3 @@ txoutwitness_harness!(txoutwitness_both, 2, 3);
 //@ harness: txoutwitness_range_only class=B tier=thorough bound="no surjection proof, range proof 2 bytes" timeout=900
 //@ clause: same with only a range proof
 txoutwitness_harness!(txoutwitness_range_only, 0, 2);
-
-// ---- experiments (to be removed) ----
-fn spin(n: u64) { let mut i = 0u64; let mut s = 0u64; while i < n { s += 1; i += 1; } assert!(s == n); }
-#[kani::proof]
-fn exp_e1_cursor_read_exact() {
-    use std::io::Read;
-    let buf = [0u8, 2u8, 0u8, 0u8, 0u8];
-    let mut c = std::io::Cursor::new(&buf[..]);
-    let mut one = [0u8; 1];
-    let _ = c.read_exact(&mut one);
-    let _ = c.read_exact(&mut one);
-    spin(one[0] as u64);
-}
-#[kani::proof]
-fn exp_e2_slice_read_exact() {
-    use std::io::Read;
-    let buf = [0u8, 2u8, 0u8, 0u8, 0u8];
-    let mut r = &buf[..];
-    let mut one = [0u8; 1];
-    let _ = r.read_exact(&mut one);
-    let _ = r.read_exact(&mut one);
-    spin(one[0] as u64);
-}
-#[kani::proof]
-fn exp_e3_read_u8() {
-    use crate::ReadExt;
-    let buf = [0u8, 2u8, 0u8, 0u8, 0u8];
-    let mut c = std::io::Cursor::new(&buf[..]);
-    let _ = c.read_u8();
-    match c.read_u8() { Ok(n) => spin(n as u64), Err(e) => forget(e) }
-}
-#[kani::proof]
-fn exp_e4_plain_index() {
-    let buf = [0u8, 2u8, 0u8, 0u8, 0u8];
-    let s = &buf[..];
-    let (a, _b) = s.split_at(2);
-    spin(a[1] as u64);
-}
